@@ -100,7 +100,7 @@ def replay (j : Json) : R Verdict := do
   | none => pure ()
   let kind := if !pf.isEmpty then "PROPFAIL" else if dis.isSome then "DISAGREE" else "ok"
   let what := match pf.reverse, dis with | (_, w) :: _, _ => w | [], some d => d | [], none => ""
-  return { case, kind, props := (pf.map (·.1)).eraseDups, what, tags, size := n,
+  return { case, kind, props := (pf.map (·.1)).eraseDups, what, tags, size := n, dis := dis.getD "",
            fails := pf.reverse.map (fun (p, w) => p ++ ": " ++ w) }
 
 end Driver.OpsReplay
